@@ -171,7 +171,7 @@ def run_shard(args):
                 derandomize=False,
                 report_multiple_bugs=False,
                 suppress_health_check=list(HealthCheck),
-                phases=(Phase.generate, Phase.shrink),
+                phases=(Phase.generate,) if os.environ.get("VERIF_NO_SHRINK") else (Phase.generate, Phase.shrink),
                 print_blob=False,
             )(test)
             test = hseed(_seed_int(seed, prop_id, sub_name, shard, rnd))(test)
